@@ -10,6 +10,34 @@ PROP_TYPE = {
 }
 
 
+RECORD = None      # when a list: every server packet built below is also recorded as (description, bytes)
+
+
+def _pdesc(ps):
+    if not ps:
+        return '-'
+    out = []
+    for i, v in ps:
+        t = PROP_TYPE[i]
+        if t == 'u8':
+            out.append(f'{i}:n:{int(v)}' if i == 36 else f'{i}:b:{int(v)}')
+        elif t in ('u16', 'u32'):
+            out.append(f'{i}:n:{v}')
+        elif t == 'var':
+            out.append(f'{i}:v:{v}')
+        elif t in ('str', 'bin'):
+            out.append(f'{i}:s:{bytes(v).hex()}')
+        else:
+            out.append(f'{i}:p:{bytes(v[0]).hex()}~{bytes(v[1]).hex()}')
+    return ','.join(out)
+
+
+def _rec(desc, data):
+    if RECORD is not None:
+        RECORD.append((desc, data))
+    return data
+
+
 def varint(n):
     out = bytearray()
     while True:
@@ -74,13 +102,13 @@ def packet(hdr, body, rl_width=None):
 
 
 def connack(sp=0, reason=0, ps=()):
-    return packet(0x20, bytes([sp, reason]) + props(ps))
+    return _rec(f'connack {sp} {reason} {_pdesc(ps)}', packet(0x20, bytes([sp, reason]) + props(ps)))
 
 
 def auth(reason=0, ps=(), short=False):
     if short:
-        return packet(0xf0, b'')
-    return packet(0xf0, bytes([reason]) + props(ps))
+        return _rec('auth empty 0 -', packet(0xf0, b''))
+    return _rec(f'auth full {reason} {_pdesc(ps)}', packet(0xf0, bytes([reason]) + props(ps)))
 
 
 def publish(topic, payload=b'', qos=0, pid=None, dup=0, retain=0, ps=(), rl_width=None):
@@ -89,7 +117,10 @@ def publish(topic, payload=b'', qos=0, pid=None, dup=0, retain=0, ps=(), rl_widt
     if qos > 0:
         body += u16(pid)
     body += props(ps) + bytes(payload)
-    return packet(hdr, body, rl_width)
+    if rl_width is not None:
+        return packet(hdr, body, rl_width)        # non-canonical remaining length: not an image of the spec encoder
+    return _rec(f"publish {dup} {qos} {retain} {bytes(topic).hex() or '-'} {pid if qos else '-'} {_pdesc(ps)} {bytes(payload).hex() or '-'}",
+                packet(hdr, body))
 
 
 ACK_HDR = {'puback': 0x40, 'pubrec': 0x50, 'pubrel': 0x62, 'pubcomp': 0x70}
@@ -98,31 +129,34 @@ ACK_HDR = {'puback': 0x40, 'pubrec': 0x50, 'pubrel': 0x62, 'pubcomp': 0x70}
 def ack(kind, pid, reason=None, ps=None):
     """reason None -> remaining length 2; ps None -> remaining length 3; else the full form"""
     body = u16(pid)
+    form = 'id'
     if reason is not None:
         body += bytes([reason])
+        form = 'reason'
         if ps is not None:
             body += props(ps)
-    return packet(ACK_HDR[kind], body)
+            form = 'full'
+    return _rec(f"{kind} {form} {pid} {reason or 0} {_pdesc(ps or []) if form == 'full' else '-'}", packet(ACK_HDR[kind], body))
 
 
 def suback(pid, reasons, ps=()):
-    return packet(0x90, u16(pid) + props(ps) + bytes(reasons))
+    return _rec(f"suback {pid} {_pdesc(ps)} {bytes(reasons).hex() or '-'}", packet(0x90, u16(pid) + props(ps) + bytes(reasons)))
 
 
 def unsuback(pid, reasons, ps=()):
-    return packet(0xb0, u16(pid) + props(ps) + bytes(reasons))
+    return _rec(f"unsuback {pid} {_pdesc(ps)} {bytes(reasons).hex() or '-'}", packet(0xb0, u16(pid) + props(ps) + bytes(reasons)))
 
 
 def pingresp():
-    return b'\xd0\x00'
+    return _rec('pingresp', b'\xd0\x00')
 
 
 def disconnect(reason=0, ps=None, form='full'):
     if form == 'empty':
-        return packet(0xe0, b'')
+        return _rec('disconnect empty 0 -', packet(0xe0, b''))
     if form == 'reason' or ps is None:
-        return packet(0xe0, bytes([reason]))
-    return packet(0xe0, bytes([reason]) + props(ps))
+        return _rec(f'disconnect reason {reason} -', packet(0xe0, bytes([reason])))
+    return _rec(f'disconnect full {reason} {_pdesc(ps)}', packet(0xe0, bytes([reason]) + props(ps)))
 
 
 CONNECT_REASONS = [0x00, 0x80, 0x81, 0x82, 0x83, 0x84, 0x85, 0x86, 0x87, 0x88, 0x89, 0x8a, 0x8c, 0x90, 0x95, 0x97,
